@@ -212,3 +212,212 @@ Proof.
   - destruct (fill_defaults (m_decl m) 0 l0) as [l1|] eqn:Ef; [|discriminate]. inversion H; subst.
     split; [exact Hnd|]. eapply fill_defaults_inv; eauto.
 Qed.
+
+(* ------------------------------------------------------------------------------------------ *)
+(** * params_total: the unwraps of mutation_query.rs are unreachable, except for one class *)
+
+Lemma first_bad_panic : forall l, first_bad l = OPanic -> In OPanic l.
+Proof.
+  induction l as [|o l IH]; cbn [first_bad]; [discriminate|].
+  destruct o; intro H; [right; auto|discriminate|left; reflexivity].
+Qed.
+
+Lemma k1_intro : forall m r v,
+  In (r, v) (m_vals m) -> fkind_of (m_decl m) r = Some (FUser FJson Nullable) ->
+  (v = MNull \/ exists x, v = MVar x /\ lookup x (m_params m) = Some PNull) ->
+  k1_mutation m = true.
+Proof.
+  intros m r v Hin Hk Hv. unfold k1_mutation. apply existsb_exists. exists (r, v). split; [exact Hin|].
+  cbn [fst snd]. rewrite Hk. destruct Hv as [->|(x & -> & Hl)]; [reflexivity|]. rewrite Hl. reflexivity.
+Qed.
+
+(* a bound value that came through validate_one *)
+Lemma bound_value : forall vs ps ps' x vt,
+  NoDup (map fst vs) -> validate_params vs ps = Some ps' -> In (x, vt) vs ->
+  exists p0 p', lookup x ps = Some p0 /\ validate_one vt p0 = Some p' /\ value_of (FVar x) ps' = Some p'.
+Proof.
+  intros vs ps ps' x vt Hnd Hv Hin.
+  destruct (validate_params_binds _ _ _ Hnd Hv x vt Hin) as (p0 & p' & H0 & H1 & H2).
+  exists p0, p'. auto.
+Qed.
+
+Theorem mutate_panics_only_in_k1 : forall m, mutate_outcome m = OPanic -> k1_mutation m = true.
+Proof.
+  intros m H. unfold mutate_outcome in H.
+  destruct (parse_mutation m) as [[l vs]|] eqn:Ep; [|discriminate].
+  destruct (parse_mutation_inv _ _ _ Ep) as (Hnd & Hl).
+  unfold execute_mutation in H.
+  destruct (validate_params vs (m_params m)) as [ps'|] eqn:Ev; [|discriminate].
+  rewrite Forall_forall in Hl.
+  (* no entry's value is absent *)
+  assert (Hval : forall r k fv, In (r, k, fv) l -> value_of fv ps' <> None).
+  { intros r k fv Hin. destruct fv as [x|p]; [|cbn [value_of]; discriminate].
+    destruct (Hl _ Hin) as [(_ & _ & Hx)|(i & t & n & He)]; [|inversion He].
+    destruct (bound_value _ _ _ x _ Hnd Ev (Hx x eq_refl)) as (p0 & p' & _ & _ & Hb). rewrite Hb. discriminate. }
+  match type of H with match first_bad ?sys with _ => _ end = _ => destruct (first_bad sys) eqn:Esys end.
+  - (* the scalar / Json fields *)
+    apply first_bad_panic in H. apply in_map_iff in H. destruct H as ([[r k] fv] & Hpan & Hin).
+    apply filter_In in Hin. destruct Hin as [Hin _]. cbn [fst snd] in Hpan.
+    unfold assemble_field in Hpan.
+    destruct (value_of fv ps') as [p|] eqn:Evo; [|exfalso; exact (Hval _ _ _ Hin Evo)].
+    destruct (field_type k) eqn:Eft;
+      try (destruct p as [| |[|]| | |]; discriminate).
+    destruct (as_string p) as [s|] eqn:Eas; [destruct (s_json s); discriminate|].
+    destruct (Hl _ Hin) as [(Hk & (v & vs0 & vs1 & Hinv & Hpv) & Hx)|(i & t & n & He)].
+    + (* from the text: the field is a declared Json field *)
+      assert (Hkind : exists n, k = FUser FJson n).
+      { destruct k as [t n| |]; cbn [field_type] in Eft; [subst t; eauto|discriminate|discriminate]. }
+      destruct Hkind as (n & ->).
+      destruct fv as [x|p1].
+      * (* a variable: validated as a String variable *)
+        destruct (parse_value_spec _ _ _ _ _ Hpv (NoDup_nil _)) as (_ & _ & Hvar) || idtac.
+        assert (Hv : v = MVar x).
+        { destruct v; cbn [parse_value] in Hpv.
+          - destruct (vars_add vs0 x0 (variable_type (FUser FJson n))); inversion Hpv; reflexivity.
+          - destruct (field_nullable (FUser FJson n)); inversion Hpv.
+          - cbn [field_type] in Hpv. discriminate.
+          - cbn [field_type] in Hpv. discriminate.
+          - cbn [field_type] in Hpv. discriminate.
+          - cbn [field_type] in Hpv. destruct (s_json s); inversion Hpv. }
+        subst v.
+        destruct (bound_value _ _ _ x _ Hnd Ev (Hx x eq_refl)) as (p0 & p' & Hl0 & Hone & Hb).
+        rewrite Hb in Evo. inversion Evo; subst p'.
+        cbn [variable_type field_type field_is_system field_nullable] in Hone.
+        destruct n; cbn [validate_one] in Hone;
+          destruct p0; try discriminate; inversion Hone; subst p; cbn [as_string] in Eas; try discriminate.
+        eapply k1_intro; [exact Hinv|exact Hk|]. right. exists x. split; [reflexivity|exact Hl0].
+      * (* a literal *)
+        cbn [value_of] in Evo. inversion Evo; subst p1.
+        destruct v; cbn [parse_value field_type field_nullable] in Hpv.
+        -- destruct (vars_add vs0 x (variable_type (FUser FJson n))); inversion Hpv.
+        -- destruct n; inversion Hpv. eapply k1_intro; [exact Hinv|exact Hk|]. left. reflexivity.
+        -- discriminate.
+        -- discriminate.
+        -- discriminate.
+        -- destruct (s_json s); inversion Hpv; subst p; cbn [as_string] in Eas; discriminate.
+    + (* a filled default is a string *)
+      inversion He; subst. cbn [field_type] in Eft. subst t. cbn [value_of default_value] in Evo.
+      inversion Evo; subst p. cbn [as_string] in Eas. discriminate.
+  - discriminate.
+  - (* id / room_id: only an absent value could panic *)
+    clear H. apply first_bad_panic in Esys. apply in_map_iff in Esys. destruct Esys as ([[r k] fv] & Hpan & Hin).
+    assert (Hin' : In (r, k, fv) l).
+    { apply in_app_or in Hin. destruct Hin as [Hin|Hin]; apply filter_In in Hin; tauto. }
+    cbn [snd] in Hpan. unfold uid_field in Hpan.
+    destruct (value_of fv ps') as [p|] eqn:Evo; [|exfalso; exact (Hval _ _ _ Hin' Evo)].
+    destruct (as_string p) as [s|]; [|discriminate].
+    destruct (negb (s_b64 s)); [discriminate|]. destruct (s_uid s); discriminate.
+Qed.
+
+(* ------------------------------------------------------------------------------------------ *)
+(** * a valid mutation executes (outside class 1) *)
+
+Lemma fref_eqb_eq : forall a b, fref_eqb a b = true <-> a = b.
+Proof.
+  intros a b; destruct a, b; cbn [fref_eqb]; split; intro H; try discriminate; try reflexivity.
+  - apply Nat.eqb_eq in H. subst. reflexivity.
+  - inversion H. apply Nat.eqb_refl.
+Qed.
+
+Lemma vtype_eqb_refl : forall a, vtype_eqb a a = true.
+Proof. destruct a; cbn [vtype_eqb]; try reflexivity; apply Bool.eqb_reflx. Qed.
+
+Definition refs_of (l : list (fref * fkind * mfv)) : list fref := map (fun e => fst (fst e)) l.
+
+Lemma has_ref_refs : forall r l, has_ref r l = existsb (fref_eqb r) (refs_of l).
+Proof.
+  intros r l. unfold has_ref, refs_of. induction l as [|e l IH]; cbn [existsb map]; [reflexivity|].
+  rewrite IH. f_equal. destruct (fref_eqb (fst (fst e)) r) eqn:E1, (fref_eqb r (fst (fst e))) eqn:E2; try reflexivity.
+  - apply fref_eqb_eq in E1. subst. destruct (fst (fst e)); cbn in E2; try discriminate. rewrite Nat.eqb_refl in E2. discriminate.
+  - apply fref_eqb_eq in E2. subst. destruct (fst (fst e)); cbn in E1; try discriminate. rewrite Nat.eqb_refl in E1. discriminate.
+Qed.
+
+Lemma value_fits_parses : forall k v ps vs,
+  value_fits k v ps = true ->
+  (forall x vt', v = MVar x -> lookup x vs = Some vt' -> vtype_eqb vt' (variable_type k) = true) ->
+  exists fv vs', parse_value k v vs = Some (fv, vs').
+Proof.
+  intros k v ps vs Hf Hc. destruct v; cbn [parse_value value_fits] in *.
+  - unfold vars_add. destruct (lookup x vs) as [vt'|] eqn:El.
+    + rewrite (Hc x vt' eq_refl El). eauto.
+    + eauto.
+  - apply andb_prop in Hf. destruct Hf as [Hn _]. rewrite Hn. eauto.
+  - destruct k as [[| | | | |] n| |]; try discriminate; cbn [field_type]; eauto.
+  - destruct k as [[| | | | |] n| |]; try discriminate; cbn [field_type]; [eauto|]. rewrite Hf. eauto.
+  - destruct k as [[| | | | |] n| |]; try discriminate; cbn [field_type]; eauto.
+  - destruct k as [[| | | | |] n| |]; try discriminate; cbn [field_type]; try rewrite Hf; eauto.
+    + apply andb_prop in Hf. destruct Hf as [Hb _]. rewrite Hb. eauto.
+    + apply andb_prop in Hf. destruct Hf as [Hb _]. rewrite Hb. eauto.
+Qed.
+
+(* where the variable table of a parsed prefix comes from *)
+Definition var_from (decl : list (ftype * nullab)) (all : list (fref * mvalue)) (xv : N * vtype) : Prop :=
+  exists r k, In (r, MVar (fst xv)) all /\ fkind_of decl r = Some k /\ snd xv = variable_type k.
+
+Lemma var_from_uses : forall m xv, var_from (m_decl m) (m_vals m) xv -> In xv (var_uses m).
+Proof.
+  intros m [x vt] (r & k & Hin & Hk & Hvt). cbn [fst snd] in *. unfold var_uses.
+  apply in_flat_map. exists (r, MVar x). split; [exact Hin|]. cbn [fst snd]. rewrite Hk. left. subst. reflexivity.
+Qed.
+
+Lemma vars_consistent_spec : forall l a b,
+  vars_consistent l = true -> In a l -> In b l -> fst a = fst b -> vtype_eqb (snd a) (snd b) = true.
+Proof.
+  intros l a b H Ha Hb Hab. unfold vars_consistent in H. rewrite forallb_forall in H.
+  specialize (H a Ha). rewrite forallb_forall in H. specialize (H b Hb).
+  rewrite Hab, N.eqb_refl in H. exact H.
+Qed.
+
+Lemma parse_fields_succeeds : forall m fs acc vs,
+  vars_consistent (var_uses m) = true ->
+  incl fs (m_vals m) ->
+  Forall (fun rv => match fkind_of (m_decl m) (fst rv) with
+                    | Some k => value_fits k (snd rv) (m_params m) = true
+                    | None => False end) fs ->
+  nodup_refs (map fst fs) = true ->
+  (forall r, In r (refs_of acc) -> existsb (fref_eqb r) (map fst fs) = false) ->
+  Forall (var_from (m_decl m) (m_vals m)) vs ->
+  exists l vs', parse_fields (m_decl m) fs acc vs = Some (l, vs')
+                /\ refs_of l = refs_of acc ++ map fst fs
+                /\ Forall (var_from (m_decl m) (m_vals m)) vs'.
+Proof.
+  intros m. induction fs as [|[r v] fs IH]; intros acc vs Hc Hincl Hfit Hnd Hacc Hvs; cbn [parse_fields].
+  - exists acc, vs. rewrite app_nil_r. auto.
+  - inversion Hfit as [|? ? Hrv Hfit']; subst. cbn [fst snd] in Hrv.
+    destruct (fkind_of (m_decl m) r) as [k|] eqn:Ek; [|contradiction].
+    assert (Hin : In (r, v) (m_vals m)) by (apply Hincl; left; reflexivity).
+    destruct (value_fits_parses k v (m_params m) vs Hrv) as (fv & vs1 & Hp).
+    { intros x vt' -> Hl. apply lookup_in_pair in Hl.
+      rewrite Forall_forall in Hvs. pose proof (var_from_uses m _ (Hvs _ Hl)) as Hu1.
+      assert (Hu2 : In (x, variable_type k) (var_uses m)).
+      { apply var_from_uses. exists r, k. auto. }
+      exact (vars_consistent_spec _ _ _ Hc Hu1 Hu2 eq_refl). }
+    rewrite Hp.
+    assert (Hnot : existsb (fun e => fref_eqb (fst (fst e)) r) acc = false).
+    { destruct (existsb (fun e => fref_eqb (fst (fst e)) r) acc) eqn:E; [|reflexivity].
+      apply existsb_exists in E. destruct E as (e & He & Heq). apply fref_eqb_eq in Heq.
+      assert (Hr : In r (refs_of acc)) by (unfold refs_of; rewrite <- Heq; apply in_map; exact He).
+      specialize (Hacc r Hr). cbn [map fst existsb] in Hacc.
+      assert (fref_eqb r r = true) by (apply fref_eqb_eq; reflexivity). rewrite H in Hacc. discriminate. }
+    rewrite Hnot.
+    cbn [map fst nodup_refs] in Hnd. apply andb_prop in Hnd. destruct Hnd as [Hnr Hnd].
+    destruct (IH (acc ++ [(r, k, fv)]) vs1 Hc) as (l & vs' & Hl & Hrefs & Hvs').
+    + intros x Hx. apply Hincl. right. exact Hx.
+    + exact Hfit'.
+    + exact Hnd.
+    + intros r0 Hr0. unfold refs_of in Hr0. rewrite map_app in Hr0. apply in_app_or in Hr0.
+      destruct Hr0 as [Hr0|[Hr0|[]]].
+      * specialize (Hacc r0 Hr0). cbn [map fst existsb] in Hacc. apply Bool.orb_false_elim in Hacc. tauto.
+      * cbn [fst] in Hr0. subst r0. apply Bool.negb_true_iff in Hnr. exact Hnr.
+    + (* the variable table *)
+      destruct v; cbn [parse_value] in Hp;
+        try (assert (vs1 = vs) by (repeat match type of Hp with
+                                            | context [match ?c with _ => _ end] => destruct c; try discriminate
+                                            end; inversion Hp; reflexivity); subst vs1; exact Hvs).
+      unfold vars_add in Hp. destruct (lookup x vs) as [vt'|].
+      * destruct (vtype_eqb vt' (variable_type k)); inversion Hp; subst. exact Hvs.
+      * inversion Hp; subst. apply Forall_app. split; [exact Hvs|]. constructor; [|constructor].
+        exists r, k. cbn [fst snd]. auto.
+    + exists l, vs'. split; [exact Hl|]. split; [|exact Hvs'].
+      rewrite Hrefs. unfold refs_of. rewrite map_app. cbn [map fst]. rewrite <- app_assoc. reflexivity.
+Qed.
